@@ -10,6 +10,8 @@ Warnings configuration word `W`: `-` = `without_warnings()`, `d` = `new()` (1 s 
 `seqw <W> <calls> <script>`: single thread on a warning-configured generator; per call the value or `P` (the call
 panicked), then the numbers of `warn!` events (`we` behind-epoch, `ws` skew); exact when the interval is 0 or `max`,
 otherwise `ws` is checked against its upper bound.
+`seqt <W> <a0,a1,…> <script>`: `seqw` under a PAUSED tokio clock advanced by a_k ns before call k: warn counts exact
+for every interval. `api <st|bl|bu|bc|wl|wu|wc> <op.op…>`: set / get / clone / append on a real Statement or Batch.
 `mtw <W> <calls> <scripts>`: `mt` on a warning-configured generator (values checked as in `mt`).
 `mtp <W> <threads> <per> <r0,r1,…>`: paced rounds: in round k every thread's clock reads r_k, `per` calls per thread;
 round k ends before round k+1 starts, so the witness schedule is built round by round.
@@ -161,8 +163,38 @@ def checkRounds (threads per : Nat) (specs : List (Option (Option Nat))) (vals :
         | .ok (evs, seen) =>
           if (Timestamp.run St.init evs).log == seen then none else some "model-run-differs"
 
+def parseApiOp (w : String) : Option ApiOp :=
+  if w == "g" then some .get
+  else if w == "c" then some .clone
+  else if w == "a" then some .append
+  else if w == "sn" then some (.set none)
+  else if w.startsWith "s" then ((w.drop 1).toString.toInt?).map (fun v => .set (some v))
+  else none
+
+def optList (xs : List (Option Int)) : String :=
+  if xs.isEmpty then "-" else ",".intercalate (xs.map fun | some v => toString v | none => "n")
+
 def run (case impl : String) : String :=
   match words case with
+  | ["api", kind, ops] =>
+    match (ops.splitOn ".").mapM parseApiOp with
+    | none => "bad-case"
+    | some os =>
+      let one : List BatchStmtM := [.query StatementM.new]
+      if kind == "st" then optList (apiRunStatement StatementM.new os)
+      else if kind == "bl" then optList (apiRunBatch (BatchM.new .logged) os)
+      else if kind == "bu" then optList (apiRunBatch (BatchM.new .unlogged) os)
+      else if kind == "bc" then optList (apiRunBatch (BatchM.new .counter) os)
+      else if kind == "wl" then optList (apiRunBatch (BatchM.newWithStatements .logged one) os)
+      else if kind == "wu" then optList (apiRunBatch (BatchM.newWithStatements .unlogged one) os)
+      else if kind == "wc" then optList (apiRunBatch (BatchM.newWithStatements .counter one) os)
+      else "bad-case"
+  | ["seqt", w, advs, script] =>
+    match parseW w, parseNatList advs, parseScript script with
+    | some (cfg, _), some as, some sc =>
+      let r := seqRunT cfg as 0 sc none ⟨0, false⟩ 0
+      s!"{callList r} we={countW .epoch r} ws={countW .skew r}"
+    | _, _, _ => "bad-case"
   | ["seq", calls, script] =>
     match calls.toNat?, parseScript script with
     | some n, some sc => intList (seqRun n 0 sc none)
